@@ -374,23 +374,36 @@ def one_returns(case):
     return out
 
 
+class PLabels:
+    """POMDP action / observation labels (states stay ids)"""
+    def __init__(self, case):
+        lab = case.get("plabels") or {}
+        nA = case["mdp"]["nA"]
+        self.A = [dec_label(x) for x in lab["actions"]] if lab.get("actions") else list(range(nA))
+        self.O = [dec_label(x) for x in lab["obs"]] if lab.get("obs") else list(range(case["nO"]))
+        self.Aid = {l: i for i, l in enumerate(self.A)}
+        self.Oid = {l: i for i, l in enumerate(self.O)}
+        assert len(self.Aid) == nA and len(self.Oid) == len(self.O)
+
+
 def build_pomdp(case):
     from msdm.core.pomdp.tabularpomdp import TabularPOMDP
     from msdm.core.distributions import DictDistribution
     m = case["mdp"]
+    lab = PLabels(case)
     trans = {}
     for k, row in m["trans"].items():
         s, a = map(int, k.split(","))
-        trans[(s, a)] = DictDistribution({ns: fl(p) for ns, p in row})
+        trans[(s, lab.A[a])] = DictDistribution({ns: fl(p) for ns, p in row})
     rew = {}
     for k, r in m["reward"].items():
         s, a, ns = map(int, k.split(","))
-        rew[(s, a, ns)] = fl(r)
+        rew[(s, lab.A[a], ns)] = fl(r)
     obs = {}
     for k, d in case["obs"].items():
         a, ns = map(int, k.split(","))
-        obs[(a, ns)] = mk_dist(d)
-    actions = [tuple(a) for a in m["actions"]]
+        obs[(lab.A[a], ns)] = mk_dist(d, lab.O)
+    actions = [tuple(lab.A[x] for x in a) for a in m["actions"]]
     absorbing = list(m["absorbing"])
     init = DictDistribution({s: fl(p) for s, p in m["init"]})
 
@@ -417,7 +430,7 @@ def build_pomdp(case):
     p = GenPOMDP()
     p._is_absorbing = lambda s: absorbing[s]
     p._state_list = tuple(range(m["n"]))
-    p._action_list = tuple(range(m["nA"]))
+    p._action_list = tuple(lab.A)
     return p
 
 
@@ -425,8 +438,30 @@ def mk_ppolicy(case, pomdp):
     from msdm.core.pomdp.policy import POMDPPolicy
     import numpy as np
     c = case["ctrl"]
+    lab = PLabels(case)
+    if c["kind"] == "fsc":
+        # msdm's deterministic controller: action_strategy = list of actions (labels), observation_strategy indexed by the
+        # POSITION of the observation in pomdp.observation_list (2-d: nodes x obs, 3-d: nodes x actions x obs)
+        from msdm.core.pomdp.finitestatecontroller import FiniteStateController
+        pos = pomdp.observation_index
+        nN, nA, nO = len(c["actions"]), len(lab.A), len(pomdp.observation_list)
+        if c["dim"] == 2:
+            arr = np.zeros((nN, nO), dtype=int)
+            for n in range(nN):
+                for o in range(nO):
+                    arr[n, pos[lab.O[o]]] = c["strategy"][n][o]
+        else:
+            arr = np.zeros((nN, nA, nO), dtype=int)
+            for n in range(nN):
+                for a in range(nA):
+                    for o in range(nO):
+                        arr[n, a, pos[lab.O[o]]] = c["strategy"][n][a][o]
+        acts = [lab.A[a] for a in c["actions"]]
+        if c.get("acts_tuple"):
+            acts = tuple(acts)
+        return FiniteStateController(pomdp, acts, arr, initial_state=c["init"])
     if c["kind"] == "table":
-        act = [mk_dist(d) for d in c["act"]]
+        act = [mk_dist(d, lab.A) for d in c["act"]]
         nxt = c["next"]
 
         class TableController(POMDPPolicy):
@@ -437,7 +472,7 @@ def mk_ppolicy(case, pomdp):
                 return act[ag]
 
             def next_agentstate(self, ag, a, o):
-                return nxt[ag][a][o]
+                return nxt[ag][lab.Aid[a]][lab.Oid[o]]
         return TableController()
     if c["kind"] == "sfsc":
         from msdm.core.pomdp.finitestatecontroller import StochasticFiniteStateController
@@ -457,7 +492,23 @@ def ag_json(ag):
 
 def one_pomdp_run(case):
     pomdp = build_pomdp(case)
-    pol = mk_ppolicy(case, pomdp)
+    if case["ctrl"]["kind"] == "fsc":
+        lab = PLabels(case)
+        try:
+            pol = mk_ppolicy(case, pomdp)
+        except AssertionError as e:
+            import traceback
+            return {"fsc_construct_error": "AssertionError: " + str(e)[:200], "trace": traceback.format_exc()[-800:],
+                    "observation_list": [lab.Oid[o] for o in pomdp.observation_list]}
+        # the action distribution of node n must be the point mass on action_strategy[n]
+        got = []
+        for n, a in enumerate(case["ctrl"]["actions"]):
+            sup = list(pol.action_dist(n).support)
+            got.append([repr(x) for x in sup])
+            if not (len(sup) == 1 and type(sup[0]) is type(lab.A[a]) and sup[0] == lab.A[a]):
+                return {"fsc_action_dist_wrong": {"node": n, "expected_action": repr(lab.A[a]), "support": [repr(x) for x in sup]}}
+    else:
+        pol = mk_ppolicy(case, pomdp)
     out = pomdp_once(case, pomdp, pol, case)
     if case.get("second") and "skipped" not in out:
         out["second"] = pomdp_once(case, pomdp, pol, case["second"])      # same POMDP and policy objects again
@@ -486,10 +537,11 @@ def pomdp_once(c0, pomdp, pol, case):
         return {"skipped": "step guard"}
     finally:
         pomdp._is_absorbing = guard[1]
+    lab = PLabels(c0)
     steps = []
     for st in traj[:-1]:
-        steps.append([int(st.state), ag_json(st.agentstate), int(st.action), int(st.nextstate), fj(st.reward),
-                      int(st.observation), ag_json(st.nextagentstate)])
+        steps.append([int(st.state), ag_json(st.agentstate), lab.Aid[st.action], int(st.nextstate), fj(st.reward),
+                      lab.Oid[st.observation], ag_json(st.nextagentstate)])
     last = traj[-1]
     return {"steps": steps, "final": [int(last.state), ag_json(last.agentstate)],
             "final_rest_none": all(x is None for x in last[2:]),
